@@ -122,7 +122,37 @@ var c01Profile = &sim.Profile{
 		"admin_unlock": 1, "admin_updatepw": 1, "admin_startconfirm": 1, "appset": 1, "totp_remove": 1, "sms_remove": 1, "regen": 1,
 		"ev_start": 1, "ev_end": 1, "faultnext": 3,
 	},
-	MinLen: 25, MaxLen: 55,
+	MinLen: 25, MaxLen: 55, Templates: c01Templates(), TplProb: 0.35, NoiseProb: 0.15,
+}
+
+// c01Templates: the directed scripts of the other checks are good C01 workloads too (they reach
+// states a random walk seldom reaches), plus an OTP replay against a 2FA account.
+func c01Templates() []sim.Template {
+	var t []sim.Template
+	t = append(t, c02Templates...)
+	t = append(t, c03Templates...)
+	t = append(t, c12Templates...)
+	t = append(t, c13Templates...)
+	own := sim.Template{Name: "otp-replay-against-2fa-account", F: func(s *sim.Sim) []*sim.Action {
+		if !s.Cfg.Has("otp") || !s.Cfg.Has("auth") || len(s.Cfg.TwoFA) == 0 {
+			return nil
+		}
+		kind := s.Cfg.TwoFA[s.R.Intn(len(s.Cfg.TwoFA))]
+		v := findAcct(s, func(u *world.User) bool {
+			return u.Confirmed && ((kind == "totp" && u.TOTPSecretKey != "") || (kind == "sms" && u.SMSPhone != "" && u.TOTPSecretKey == ""))
+		})
+		if v < 0 {
+			return nil
+		}
+		k := kind + "_validate"
+		return []*sim.Action{act("login", 0, v, "ok"), act(k, 0, -9, "ok"), act("otp_add", 0, -9, ""), act("otp_add", 0, -9, ""),
+			act("otp_login", 1, v, "ok"), act(k, 1, -9, "ok"), act("advance", 1, -9, "", "d", "31s"),
+			act("otp_login", 2, v, "spent"), act(k, 2, -9, "ok"), act("visit", 2, -9, "", "route", "/protected/bare")}
+	}}
+	for i := 0; i < 8; i++ { // weight: as likely as a quarter of the borrowed templates together
+		t = append(t, own)
+	}
+	return t
 }
 
 func init() {
